@@ -155,6 +155,16 @@ def skeletons(tier):
         P.append(["(define (lp n acc) (if (= n 0) acc (begin %s (lp (- n 1) (cons n acc)))))" % rd, "(lp 3 '())"])
         P.append(["(define (lp n acc) (if (= n 0) acc (begin %s (lp (- n 1) (cons n acc)))))" % rd, "(lp 3 '())", "(lp 3 '())"])
         P.append(["(define (lp n acc) (if (= n 0) acc (begin %s (car (list (lp (- n 1) (cons n acc)))))))" % rd, "(lp 3 '())"])
+    # tail loops that carry their state in captured variables: every step builds a fresh instance of the SAME lambda (closed over the new
+    # state) and tail-calls it; each instance must see its own captures (constructor = named let / passed along as a value / through map / apply)
+    for n in (1, 2, 5):
+        P.append(["(define (stepper) (let mk ((k 0)) (lambda (n acc) (if (= n 0) acc ((mk (+ k 1)) (- n 1) (+ acc k))))))", "((stepper) %d 0)" % n])
+        P.append(["(define (stepper) (let mk ((k 0)) (lambda (n acc) (if (= n 0) (list k acc) ((mk (+ k 1)) (- n 1) (cons k acc))))))", "((stepper) %d '())" % n])
+        P.append(["(define (ms mk total) (lambda (r) (if (= r 0) total ((mk mk (+ total r)) (- r 1)))))", "((ms ms 0) %d)" % n])
+        P.append(["(define (ma k) (lambda (n acc) (if (= n 0) acc ((car (map ma (list (+ k 2)))) (- n 1) (+ acc k)))))", "((ma 0) %d 0)" % n])
+        P.append(["(define (astep) (let mk ((k 0)) (lambda (n acc) (if (= n 0) acc (apply (mk (+ k 1)) (list (- n 1) (+ acc k)))))))", "((astep) %d 0)" % n])
+        P.append(["(define (two) (let mk ((k 0) (tag 'a)) (lambda (n acc) (if (= n 0) (cons tag acc) ((mk (+ k 1) (if (eq? tag 'a) 'b 'a)) (- n 1) (cons (list tag k) acc))))))", "((two) %d '())" % n])
+        P.append(["(define (mkc k) (lambda (n acc) (if (= n 0) acc ((mkc (+ k 1)) (- n 1) (+ acc k)))))", "((mkc 0) %d 0)" % n, "(define (drive) ((mkc 10) %d 0))" % n, "(drive)"])
     # mutual recursion with rest args
     P.append(["(define (ev? n . r) (if (= n 0) (list #t r) (od? (- n 1) n)))", "(define (od? n . r) (if (= n 0) (list #f r) (ev? (- n 1) n r)))", "(list (ev? 4) (ev? 3 'x) (od? 2 'y 'z))"])
     # --- counters, captured + assigned variables
